@@ -5,7 +5,7 @@ import itertools
 from fractions import Fraction
 
 from ..absint import Interp, ObjV
-from ..forms import Const, Form, SliceV, fpow, mk_fn
+from ..forms import Const, Form, SliceV, TupleV, fpow, mk_fn
 from ..rules import S, check_late_binding
 from ..srcmodel import src_of
 from .c06 import strip_setitem
@@ -41,6 +41,33 @@ def has_sym(f, name):
 
 def has_fn(f, fname):
     return isinstance(f, Form) and any(a[0] == "fn" and a[1] == fname for a in f.atoms())
+
+
+def _ase_layouts(rargs, N):
+    """accepted ways of drawing the four real quadratures (x/y polarisation x in-phase/quadrature, N samples each) in one call and
+    pairing them: (re index, im index) per draw shape"""
+    al = SliceV(Const(None), Const(None), Const(None))
+    two = Form.num(2)
+    if len(rargs) == 2 and rargs[0] == Form.num(4) and rargs[1] == N:
+        return [(SliceV(Const(None), two, Const(None)), SliceV(two, Const(None), Const(None)))]            # randn(4, N): rows[:2] + j*rows[2:]
+    if len(rargs) == 3 and rargs[0] == two and rargs[1] == N and rargs[2] == two:
+        return [(TupleV([Const(Ellipsis), Form.num(0)]), TupleV([Const(Ellipsis), Form.num(1)])),           # randn(2, N, 2): [..., 0] + j*[..., 1]
+                (TupleV([al, al, Form.num(0)]), TupleV([al, al, Form.num(1)]))]
+    if len(rargs) == 3 and rargs[0] == two and rargs[1] == two and rargs[2] == N:
+        return [(Form.num(0), Form.num(1))]                                                                  # randn(2, 2, N): [0] + j*[1]
+    return []
+
+
+def _ase_matches(ase, P_ase, r):
+    """ase is sqrt(P_ase/4) * (re part + j * im part) of ONE standard-normal draw of four independent N-sample quadratures"""
+    ra = r.result.single_atom() if isinstance(r.result, Form) else None
+    rargs = list(ra[2]) if ra and ra[0] == "fn" and ra[1] == "numpy.random.randn" and not ra[3] else []
+    N = mk_fn("siglen", [S("input.signal")])
+    X = fpow(P_ase / 4, Fraction(1, 2)) * r.result
+    for re_i, im_i in _ase_layouts(rargs, N):
+        if ase == Form.atom(("idx", X, re_i)) + Form.num(0, 1) * Form.atom(("idx", X, im_i)):
+            return True
+    return False
 
 
 def run(ctx):
@@ -110,11 +137,11 @@ def run(ctx):
         ra = r.result.single_atom() if isinstance(r.result, Form) else None   # canonical form: standard_normal((4, N)) == randn(4, N)
         rargs = list(ra[2]) if ra and ra[0] == "fn" and ra[1] == "numpy.random.randn" and not ra[3] else []
         n_arg = rargs[1] if len(rargs) > 1 else None
-        ok = len(rargs) == 2 and rargs[0] == Form.num(4) and isinstance(n_arg, Form) and n_arg == mk_fn("siglen", [S("input.signal")])
-        ctx.check("C10.3", ok, fi, r.node, src_of(r.node), "four independent real rows of N samples", "ASE draw is not randn(4, N): the four quadratures are not independent rows of the input length")
+        ok = bool(_ase_layouts(rargs, mk_fn("siglen", [S("input.signal")])))
+        ctx.check("C10.3", ok, fi, r.node, src_of(r.node), "four independent real N-sample quadratures in one draw", "ASE draw is not randn(4, N) (or (2, N, 2) / (2, 2, N)): the four quadratures are not independent arrays of the input length")
         X = fpow(P_ase / 4, Fraction(1, 2)) * r.result
         want = Form.atom(("idx", X, SliceV(Const(None), Form.num(2), Const(None)))) + Form.num(0, 1) * Form.atom(("idx", X, SliceV(Form.num(2), Const(None), Const(None))))
-        if ase == want:
+        if ase == want or _ase_matches(ase, P_ase, r):
             ctx.holds("C10.3", fi, node, f"EDFA [{case}] ASE = rows[:2] + j*rows[2:], rows = sqrt(P_ase/4)*randn(4,N)", f"P_ase = {P_ase!r}")
         else:
             # diagnose P_ase
@@ -163,7 +190,7 @@ def run(ctx):
             inpart, ase = split_terms(pre.fields["noise"], lambda t: has_sym(t, "input.noise"))
             X = fpow(P_ase / 4, Fraction(1, 2)) * randn[0].result
             want = Form.atom(("idx", X, SliceV(Const(None), Form.num(2), Const(None)))) + Form.num(0, 1) * Form.atom(("idx", X, SliceV(Form.num(2), Const(None), Const(None))))
-            ctx.check("C10.3", ase == want, fi, bpf[0].node, "EDFA with BW: ASE handed to the filter", f"white ASE of power P_ase = {P_ase!r} (as without BW), band-limited afterwards",
+            ctx.check("C10.3", ase == want or _ase_matches(ase, P_ase, randn[0]), fi, bpf[0].node, "EDFA with BW: ASE handed to the filter", f"white ASE of power P_ase = {P_ase!r} (as without BW), band-limited afterwards",
                       f"with a bandwidth argument the ASE generated before the filter is {ase!r}, not the BW=None noise {want!r}: the output is not the band-limited version of the documented output")
         else:
             ctx.unknown("C10.3", fi, fi.node, "EDFA with BW: ASE handed to the filter", "field passed to BPF not resolved")
